@@ -6,7 +6,8 @@ NetSpec.lean only; the client invariant behind (i) is `CI` of NetProofsCl.lean.
 (i)   no stale events: every callback of a client carries the link id of the connection that was
       current when it fired (over every operation list, every configuration);
 (ii)  a connect attempt that succeeds gets a link id no earlier connection had, and the new link
-      starts empty;
+      starts empty; globally: no link id is reported connected twice, so no callback ever carries the
+      id of a connection that was replaced (invariant `LI` of NetProofsLk.lean);
 (iii) the retry timer: armed with exactly the delay the user's delay function gives (seconds, in
       milliseconds of the loop clock; exact for every 0 ≤ delay ≤ INT_MAX: `std::chrono::seconds(int)`
       is widened to 64 bits before it is multiplied by 1000), it fires when that time is reached and
@@ -18,6 +19,7 @@ import TboxModel.C06.NetProofsRc
 import TboxModel.C06.NetProps
 
 import TboxModel.C06.NetPropsCl
+import TboxModel.C06.NetProofsLk
 
 namespace Tbox.C06.Net
 
@@ -61,15 +63,46 @@ theorem C06_net_client_no_stale_after_reconnect (cfg : Cfg) (ops : List Op) (i l
   · exact absurd (by injection h with h; exact h.symm) hne
   · exact h
 
--- OPEN (C06_net_client_link_ids_fresh): for every operation list, a link id occurs in at most one `connected` event of
+/-- **C06_net_client_link_ids_fresh.** Over every operation list and every configuration, a link id occurs in at most
+one `connected` callback of the whole history — of either client: no two connections are ever reported under the same
+id.  (Invariant `LI` of NetProofsLk.lean: the ids told so far are pairwise distinct and below `links.length`, the ids the
+three connectors are waiting for are below `links.length`, pairwise distinct and not yet told; a new attempt takes
+`links.length`, `C06_net_connect_fresh_link`.) -/
 
--- the whole history (over both clients), i.e. the `connected` between the two events above cannot exist for a link that
+theorem C06_net_client_link_ids_fresh (cfg : Cfg) (ops : List Op) (i j l : Nat) (h1 h2 h3 : List Ev) :
+    (run cfg init ops).hist ≠ h1 ++ .cl i l .connected :: (h2 ++ .cl j l .connected :: h3) := by
+  intro hs
+  have h := link_ids_fresh cfg ops
+  rw [hs] at h
+  simp [connL, List.filterMap_append, List.nodup_append, List.nodup_cons] at h
 
--- was connected before.  The step-level law is proved below (`C06_net_connect_fresh_link`: the link of a new attempt is
+/-- **C06_net_client_no_events_of_earlier_link.** With it the reconnect law is unconditional: once the `connected`
+callback of a later connection (link `l'`) has been made, no callback of client `i` ever carries the id `l ≠ l'` of a
+connection that was reported connected before it — neither a late receive / send-complete / disconnected nor a second
+`connected`. -/
 
--- `links.length`, one more than every link made so far); carrying "every link in the history and in a connector's `pend`
+theorem C06_net_client_no_events_of_earlier_link (cfg : Cfg) (ops : List Op) (i l l' : Nat) (k : Kind)
+    (h1 h2 h3 h4 : List Ev) (hne : l ≠ l') :
+    (run cfg init ops).hist ≠
+      h1 ++ .cl i l .connected :: (h2 ++ .cl i l' .connected :: (h3 ++ .cl i l k :: h4)) := by
+  intro hs
+  by_cases hk : k = .connected
+  · subst hk
+    exact C06_net_client_link_ids_fresh cfg ops i i l h1 (h2 ++ .cl i l' .connected :: h3) h4 (by rw [hs]; simp)
+  · have hm := C06_net_client_no_stale_after_reconnect cfg ops i l l' k (h1 ++ .cl i l .connected :: h2) h3 h4 hne hk
+      (by rw [hs]; simp)
+    obtain ⟨a, b, rfl⟩ := List.append_of_mem hm
+    exact C06_net_client_link_ids_fresh cfg ops i i l h1 (h2 ++ .cl i l' .connected :: a) (b ++ .cl i l k :: h4)
+      (by rw [hs]; simp)
 
--- is below `links.length`" through every operation and callback script is not done.
+/-- non-vacuity: the shape the two theorems forbid is a real shape of histories — with distinct ids it occurs: client 0 is
+connected over link 0, loses it, is connected over link 1 and then receives on link 1 -/
+
+example :
+    (run {} init [.svInit, .svStart, .clInit 0, .clStart 0, .svStop, .svStart, .svSend 1 [7]]).hist =
+      [.svStart, .clStart 0, .sv 0 .connected] ++ .cl 0 0 .connected ::
+        ([.svStop, .clStart 0, .cl 0 0 .disconnected] ++ .cl 0 1 .connected ::
+          ([.svStart, .sv 1 .connected] ++ .cl 0 1 (.recv [7]) :: [.sv 1 .sendComplete])) := by decide
 
 /-- what the two theorems rule out, on concrete histories -/
 
@@ -175,11 +208,39 @@ and no write event is pending — the stop() is neither lost nor fatal, on every
 a retry, a late SO_ERROR). -/
 
 theorem C06_net_delay_func_stops (n : N) (k : Nat) (hk : k = n.kn.fails + 1)
-    (hlim : ¬ (n.kn.tries > 0 ∧ n.kn.fails + 1 ≥ n.kn.tries)) (hd : n.kn.dAct = some (k, false)) :
+    (hlim : ¬ (n.kn.tries > 0 ∧ n.kn.fails + 1 ≥ n.kn.tries)) (hd : n.kn.dAct = some (k, false)) (hr : n.kn.dRe = false) :
     let n' := (cnFail {} n .kn).1
     n'.kn.st = .inited ∧ n'.kn.deadline = none ∧ n'.kn.pend = none ∧ n'.uaf = n.uaf ∧ (cnFail {} n .kn).2 = false := by
   subst hk
-  simp [cnFail, hd, hlim, N.setCn, cnStop, N.ev, N.cn]
+  simp [cnFail, hd, hr, hlim, N.setCn, cnStop, N.ev, N.cn]
+
+/-- **C06_net_delay_func_restarts.** (the recheck of patches/C06-11) A delay function that calls `stop()` and `start()` of
+its own connector when it is asked about the k-th failure, the `connect()` of that `start()` being refused at once: a new
+series has begun and failed once — the connector waits with exactly ONE timer, armed for the delay of failure 1 of the new
+series (the function was asked again from inside itself), the count is 1, nothing is pending, no link was made.  The outer
+call does nothing more: the state is Delay again, but the timer is not the one it made (a recheck of the state alone would
+arm it once more, with the delay of the OLD series' k-th failure — see the example below). -/
+
+theorem C06_net_delay_func_restarts (n : N) (k : Nat) (hk : k = n.kn.fails + 1)
+    (hlim : ¬ (n.kn.tries > 0 ∧ n.kn.fails + 1 ≥ n.kn.tries)) (hd : n.kn.dAct = some (k, false)) (hr : n.kn.dRe = true) :
+    let n' := (cnFail {} n .kn).1
+    n'.kn.st = .delay ∧ n'.kn.fails = 1 ∧ n'.kn.deadline = some (n.now + 1000 * n.kn.delayOf 1) ∧ n'.kn.pend = none ∧
+    n'.uaf = n.uaf ∧ (cnFail {} n .kn).2 = false ∧ n'.links = n.links ∧ n'.hist = n.hist ++ [.knStop, .knStart] := by
+  subst hk
+  simp [cnFail, hd, hr, hlim, N.setCn, cnStop, N.ev, N.cn, Cn.delayOf]
+
+/-- non-vacuity, and what the pointer half of the recheck is for: table 5, 3 s, restart at the 2nd failure.  The first
+failure waits 5 s; the retry at 5000 ms fails (2nd failure: the function restarts, the new series' first failure waits
+5 s again): the deadline is 10000 ms — not 8000 ms, what arming the outer timer with the 2nd entry would give; at 10000 ms
+the same happens again (failure 2 of the new series), and so on: the count never passes 2. -/
+
+example :
+    let a := run {} init [.knInit 0, .knDelayRe [5, 3] 2, .knStart, .adv 5000]
+    let b := run {} init [.knInit 0, .knDelayRe [5, 3] 2, .knStart, .adv 5000, .adv 4999]
+    let c := run {} init [.knInit 0, .knDelayRe [5, 3] 2, .knStart, .adv 5000, .adv 5000, .adv 5000]
+    a.kn.st = .delay ∧ a.kn.fails = 1 ∧ a.kn.deadline = some 10000 ∧ a.uaf = false ∧ a.hist = [.knStart, .knStop, .knStart] ∧
+    b.kn.deadline = some 10000 ∧ dueTimers b = [] ∧
+    c.kn.fails = 1 ∧ c.kn.deadline = some 20000 ∧ c.links = [] := by decide
 
 /-- **C06_net_delay_func_stops_counterexample.** The code as found calls the delay function before the new timer
 exists and while the state still says Delay (after a retry): its `stop()` dereferences the timer pointer that
